@@ -73,7 +73,8 @@ package protocol
 //@   nopanic[C14]
 //@   ensures[C14 temporary] retErr != nil ==> isTemporary(retErr) || flag("baseAcceptFailed") || opts(l.options).Err
 //@   ensures[C14 failclosed] retErr != nil ==> IsNil(conn)
-//@   ensures[C02 nofetch] retErr == nil ==> !IsNil(conn) && !hasPrefix(negProto(conn.Conn), FetchNodeCredsNextProtoV1Prefix)
+//@   ensures[C02,C17 nofetch] retErr == nil ==> !IsNil(conn) && dynIs(conn, "protocol.Conn") && as(conn, "protocol.Conn") != nil
+//@   |   && !hasPrefix(negProto(as(conn, "protocol.Conn").Conn), FetchNodeCredsNextProtoV1Prefix)
 //@   call protocol.NewConn assert[C16 meta] opts(arg1).WithState == clientInfo.clientState && opts(arg1).WithExtraAlpnProtos == clientInfo.nextProtos
 //@   call protocol.(*InterceptingListener).getTlsConfigForClient assert[C15 freshinfo] fresh(arg1)
 //@   loop 0 invariant[accepting] true
